@@ -24,7 +24,12 @@ theorem worker_program_order :
     Gen.Programs.killReroute.filter outcomeEffect = [] ∧
     Gen.Programs.recoverPending.filter outcomeEffect = [] ∧
     Gen.Programs.pollClaim.filter outcomeEffect = [] ∧
-    Gen.Programs.clientSingle.filter outcomeEffect = [] := by decide
+    Gen.Programs.clientSingle.filter outcomeEffect = [] ∧
+    -- storage faults: when storing the RESULT fails the run falls back to the failure path (the storage error is
+    -- stored as the exception, then FAILED); when storing the EXCEPTION fails nothing is published and the
+    -- invocation stays RUNNING (recoverable) — a final status is never published without its outcome
+    Gen.Programs.runOkStoreFault.filter outcomeEffect = ["set_exception", "transition failed"] ∧
+    Gen.Programs.runFailStoreFault.filter outcomeEffect = [] := by decide
 
 variable {V E : Type}
 
